@@ -420,4 +420,11 @@ def k7(ctx, kr):
     K05.k2(ctx, kr)
     for f in kr.findings: f.role = f.role.replace('C05/K2/', 'C15/K7/')
 
-KERNELS = [k1, k2, k3, k4, k5, k6, k7]
+@kernel('K8 lexer.positions_after_multi_line_lexemes')
+def k8(ctx, kr):
+    """the semantic tokens that follow a comment or string spanning several lines: same kernel as C05-K9"""
+    from . import C05 as K05
+    K05.k9(ctx, kr)
+    for f in kr.findings: f.role = f.role.replace('C05/K9/', 'C15/K8/')
+
+KERNELS = [k1, k2, k3, k4, k5, k6, k7, k8]
